@@ -401,8 +401,11 @@ class Run:
         ev = dict(property_id=self.pid, tier=self.tier, seed=self.seed, level=level,
                   coverage=cov, assumptions=self.assumptions, wall_s=round(time.time() - self.t0, 2),
                   violations=nviol)
-        os.makedirs(os.path.join(ROOT, "evidence"), exist_ok=True)
-        with open(os.path.join(ROOT, "evidence", self.pid + ".json"), "w") as f:
+        evdir = os.path.join(ROOT, "evidence")
+        if os.environ.get("VERIF_DEV") == "1":      # development runs (no proof phase) never touch the evidence files
+            evdir = os.path.join(BUILD, "evidence_dev")
+        os.makedirs(evdir, exist_ok=True)
+        with open(os.path.join(evdir, self.pid + ".json"), "w") as f:
             json.dump(ev, f, indent=1, default=str)
         self.log("done: evaluations=%d distinct_nontrivial=%d violations=%d known=%d wall=%.1fs" % (
             cov["evaluations"], cov["distinct_nontrivial"], nviol, len(self.known_hits), time.time() - self.t0))
